@@ -657,6 +657,8 @@ struct Ctx<'w> {
     /// written is executed but not written again -- the contract is a function of the record alone
     lines: u64,
     seen: std::collections::HashSet<(u64, u64)>,
+    /// STRS_TRACE=1: announce every step on stderr before it runs (used to locate a step that kills the process)
+    trace: bool,
 }
 
 fn emit(ctx: &mut Ctx, beh: u64, k: usize, ty: &str, cfg: &str, step: &Value, pre: &Snap, post: &Snap, gone: bool, o: &Out) {
@@ -710,6 +712,9 @@ fn replay<C: Cont>(
         }
         let op = &step["op"];
         let name = op["name"].as_str().unwrap();
+        if ctx.trace {
+            eprintln!("AT {beh} {k} {} {cfg}", C::TY);
+        }
         pre = post;
         let o = if is_pure(name) {
             let mut o = Out::new();
@@ -996,7 +1001,11 @@ fn main() {
     let input = BufReader::new(std::fs::File::open(&args[1]).expect("behaviours file"));
     let mut out = BufWriter::with_capacity(1 << 20, std::fs::File::create(&args[2]).expect("observation file"));
     let all = args[3] == "all";
-    let mut ctx = Ctx { w: &mut out, steps: 0, lines: 0, seen: Default::default() };
+    let from: u64 = args.get(4).map_or(0, |a| a.parse().expect("first behaviour id"));
+    let trace = std::env::var("STRS_TRACE").is_ok();
+    let mut ctx = Ctx { w: &mut out, steps: 0, lines: 0, seen: Default::default(), trace };
+    // panics that escape from the code under test outside a recorded step (constructors): data, written to <obs>.escaped
+    let mut escaped: Vec<String> = Vec::new();
     let mut nbeh = 0u64;
     for line in input.lines() {
         let line = line.unwrap();
@@ -1006,29 +1015,46 @@ fn main() {
         let v: Value = serde_json::from_str(&line).expect("behaviour json");
         let id = v["id"].as_u64().unwrap();
         let steps = v["steps"].as_array().unwrap();
-        if steps.is_empty() {
+        if steps.is_empty() || id < from {
             continue;
         }
         nbeh += 1;
-        for c in 0..4u64 {
-            if !all && id % 4 != c {
+        for c in 0..5u64 {
+            if c < 4 && !all && id % 4 != c {
                 continue;
             }
-            match c {
+            if trace {
+                eprintln!("AT {id} 0 ctor {}", ["u1", "d1", "u8", "d8", "std"][c as usize]);
+            }
+            let r = catch(|| match c {
                 0 => u1::run_cfg(&mut ctx, id, "u1", steps),
                 1 => d1::run_cfg(&mut ctx, id, "d1", steps),
                 2 => u8_::run_cfg(&mut ctx, id, "u8", steps),
-                _ => d8::run_cfg(&mut ctx, id, "d8", steps),
+                3 => d8::run_cfg(&mut ctx, id, "d8", steps),
+                _ => {
+                    if let Some(first) = ctor_std(&steps[0]["op"]) {
+                        let mut aux: Bump<Global, BumpSettings<1, true>> = Bump::new();
+                        let mut pure = |op: &Value, o: &mut Out| u1::pure_cstr(&mut aux, op, o);
+                        replay(&mut ctx, id, "std", steps, first, &mut pure);
+                    }
+                }
+            });
+            if let Err(msg) = r {
+                if msg.starts_with("harness") || c == 4 {
+                    eprintln!("harness failure in behaviour {id} (cfg {c}): {msg}");
+                    std::process::exit(3);
+                }
+                escaped.push(format!(
+                    "{{\"beh\":{id},\"cfg\":\"{}\",\"msg\":{}}}",
+                    ["u1", "d1", "u8", "d8"][c as usize],
+                    serde_json::to_string(&msg).unwrap()
+                ));
             }
-        }
-        if let Some(first) = ctor_std(&steps[0]["op"]) {
-            let mut aux: Bump<Global, BumpSettings<1, true>> = Bump::new();
-            let mut pure = |op: &Value, o: &mut Out| u1::pure_cstr(&mut aux, op, o);
-            replay(&mut ctx, id, "std", steps, first, &mut pure);
         }
     }
     let (steps, lines) = (ctx.steps, ctx.lines);
     out.flush().unwrap();
+    std::fs::write(format!("{}.escaped", &args[2]), escaped.join("\n")).unwrap();
     // behaviours read, steps executed, distinct records written
     println!("{nbeh} {steps} {lines}");
 }
